@@ -98,6 +98,69 @@ func revcomp(s string) string {
 	return string(b)
 }
 
+// fold: upper case, U->T (the form on which reading frames and alignments are defined)
+func fold(s string) string {
+	return strings.ReplaceAll(strings.ToUpper(s), "U", "T")
+}
+
+func foldAll(ss []string) []string {
+	out := make([]string, len(ss))
+	for i, s := range ss {
+		out[i] = fold(s)
+	}
+	return out
+}
+
+// revcompKeepCase: reverse complement with the case kept and DNA letters written (U->A, A->T): the
+// convention of goalign's complement table; only used to tell "exactly the original residues"
+// from "the same residues up to case / U" on the reverse strand
+func revcompKeepCase(s string) string {
+	m := map[byte]byte{'A': 'T', 'T': 'A', 'U': 'A', 'C': 'G', 'G': 'C', 'a': 't', 't': 'a', 'u': 'a', 'c': 'g', 'g': 'c'}
+	b := make([]byte, len(s))
+	for i := 0; i < len(s); i++ {
+		c, ok := m[s[i]]
+		if !ok {
+			panic("harness: not a nucleotide")
+		}
+		b[len(s)-1-i] = c
+	}
+	return string(b)
+}
+
+var styles = []string{"dna-upper", "dna-upper", "rna-upper", "dna-lower", "rna-lower", "mixed"}
+
+// restyle rewrites an upper-case DNA string as RNA, lower case or a soft-masked mixture
+func restyle(t *rapid.T, s, style string) string {
+	switch style {
+	case "rna-upper":
+		return strings.ReplaceAll(s, "T", "U")
+	case "dna-lower":
+		return strings.ToLower(s)
+	case "rna-lower":
+		return strings.ToLower(strings.ReplaceAll(s, "T", "U"))
+	case "mixed":
+		var sb strings.Builder
+		for i := 0; i < len(s); {
+			n := rapid.IntRange(1, 12).Draw(t, "seg")
+			if i+n > len(s) {
+				n = len(s) - i
+			}
+			seg := s[i : i+n]
+			k := rapid.IntRange(0, 3).Draw(t, "segstyle")
+			if k&1 == 1 {
+				seg = strings.ReplaceAll(seg, "T", "U")
+			}
+			if k&2 == 2 {
+				seg = strings.ToLower(seg)
+			}
+			sb.WriteString(seg)
+			i += n
+		}
+		return sb.String()
+	}
+	return s
+}
+
 func isStop(c string) bool { return c == "TAA" || c == "TAG" || c == "TGA" }
 
 // occurrences counts the (possibly overlapping) occurrences of r in s and returns the first
@@ -128,10 +191,10 @@ func orfAt(s string, i int) int {
 }
 
 // naiveLongest scans every ATG of every strand allowed; returns the maximal length and the
-// distinct ORF strings of that length
+// distinct ORF strings of that length; works on the case-folded, U->T form of the sequences
 func naiveLongest(seqs []string, reverse bool) (max int, orfs map[string]bool) {
 	orfs = map[string]bool{}
-	for _, s := range seqs {
+	for _, s := range foldAll(seqs) {
 		strands := []string{s}
 		if reverse {
 			strands = append(strands, revcomp(s))
@@ -234,6 +297,7 @@ type phaseCase struct {
 	Code      string    `json:"code"`
 	Workers   []int     `json:"workers"`
 	ErrCase   bool      `json:"errcase"` // one sequence is too short to be translated in every frame
+	Style     string    `json:"style"`   // how the upper-case DNA was rewritten (RNA, lower case, mixed)
 }
 
 var workerCounts = []int{1, 2, 3, 8, 16, 32}
@@ -291,6 +355,16 @@ func genPhase(noErr bool) func(t *rapid.T) phaseCase {
 			c.ErrCase = true
 			at := rapid.IntRange(0, n-1).Draw(t, "errat")
 			c.Seqs[at].Seq = gen.SeqN(t, "ACGT", rapid.IntRange(1, 4).Draw(t, "shortlen"))
+		}
+		c.Style = rapid.SampledFrom(styles).Draw(t, "style")
+		for i := range c.Seqs {
+			c.Seqs[i].Seq = restyle(t, c.Seqs[i].Seq, c.Style)
+		}
+		if len(c.Orfs) > 0 && c.Style != "dna-upper" {
+			os := rapid.SampledFrom(styles).Draw(t, "orfstyle")
+			for i := range c.Orfs {
+				c.Orfs[i].Seq = restyle(t, c.Orfs[i].Seq, os)
+			}
 		}
 		w := rapid.SampledFrom(workerCounts[1:]).Draw(t, "w")
 		w2 := rapid.SampledFrom(workerCounts).Draw(t, "w2")
@@ -371,7 +445,7 @@ func looksProtein(aa string) bool { return strings.ContainsAny(aa, "QEILFPZ") }
 // reference is not determined: several references, or several longest ORFs)
 func effectiveRef(c phaseCase) string {
 	if len(c.Orfs) == 1 {
-		return c.Orfs[0].Seq
+		return fold(c.Orfs[0].Seq)
 	}
 	if len(c.Orfs) == 0 {
 		var ss []string
@@ -390,18 +464,29 @@ func effectiveRef(c phaseCase) string {
 
 // judgeResult applies the per-sequence relations of the statement
 func judgeResult(c phaseCase, input string, ref string, r result, o *pbt.Outcome) error {
-	strands := []string{input}
+	// relations are judged on the case-folded, U->T form; the residues themselves must be the
+	// original ones on the forward strand; on the reverse strand the case / U convention of the
+	// complement is not stated: the observed one (case kept, DNA letters) or any other is accepted
+	strands := []string{fold(input)}
+	exact := []string{input}
 	if c.Reverse {
-		strands = append(strands, revcomp(input))
+		strands = append(strands, revcomp(fold(input)))
+		exact = append(exact, revcompKeepCase(input))
 	}
 	// trimmed nucleotides = the input (or its reverse complement) from the reported position
 	okStrand := -1
 	for k, s := range strands {
-		if r.Pos < 0 || r.Pos+len(r.Nt) > len(s) || s[r.Pos:r.Pos+len(r.Nt)] != r.Nt {
+		if r.Pos < 0 || r.Pos+len(r.Nt) > len(s) || s[r.Pos:r.Pos+len(r.Nt)] != fold(r.Nt) {
 			continue
 		}
 		if !c.CutEnd && r.Pos+len(r.Nt) != len(s) {
 			continue
+		}
+		if exact[k][r.Pos:r.Pos+len(r.Nt)] != r.Nt {
+			if k == 0 {
+				continue
+			}
+			o.Ambiguous++
 		}
 		okStrand = k
 		break
@@ -415,7 +500,7 @@ func judgeResult(c phaseCase, input string, ref string, r result, o *pbt.Outcome
 	if d < 0 || d > 2 || !strings.HasSuffix(r.Nt, r.Codon) {
 		return fmt.Errorf("%s: codon sequence %q is not the trimmed nucleotides %q minus 0-2 leading bases", r.Name, r.Codon, r.Nt)
 	}
-	if want := tr(r.Codon, c.Code); want != r.Aa {
+	if want := tr(fold(r.Codon), c.Code); want != r.Aa {
 		return fmt.Errorf("%s: codon sequence %q translates (%s) to %q, reported amino acids are %q", r.Name, r.Codon, c.Code, want, r.Aa)
 	}
 	if r.CodonName != r.Name || r.AaName != r.Name {
@@ -593,6 +678,10 @@ func checkPhase(test string) func(c phaseCase) (pbt.Outcome, error) {
 		}
 		o.Class("mode=%s reverse=%v cutend=%v", mode, c.Reverse, c.CutEnd)
 		o.Class("code=%s", c.Code)
+		o.Class("style=%s", c.Style)
+		if len(c.Orfs) == 0 && c.Style != "dna-upper" {
+			o.Class("no-reference-and-rna-or-lower-case")
+		}
 		switch len(c.Orfs) {
 		case 0:
 			o.Class("refs=none")
@@ -623,6 +712,7 @@ type orfCase struct {
 	Seqs    []gen.Row `json:"seqs"`
 	Reverse bool      `json:"reverse"`
 	Bag     bool      `json:"bag"` // SeqBag.LongestORF(reverse); otherwise Sequence.LongestORF of the first
+	Style   string    `json:"style"`
 }
 
 var orfTokens = []string{"ATG", "ATG", "ATG", "ATG", "ATG", "TAA", "TAG", "TGA", "CAT", "CAT", "CAT", "TTA", "CTA", "TCA", "A", "C", "G", "T", "AT", "TG", "ATGA", "CATG", "ATGC", "GCAT"}
@@ -650,6 +740,10 @@ func genOrf(t *rapid.T) orfCase {
 	}
 	for i := 0; i < n; i++ {
 		c.Seqs = append(c.Seqs, gen.Row{Name: fmt.Sprintf("s%d", i), Seq: genOrfSeq(t)})
+	}
+	c.Style = rapid.SampledFrom(styles).Draw(t, "style")
+	for i := range c.Seqs {
+		c.Seqs[i].Seq = restyle(t, c.Seqs[i].Seq, c.Style)
 	}
 	return c
 }
@@ -689,23 +783,31 @@ func judgeORF(c orfCase, got string, found bool, o *pbt.Outcome) error {
 	if !found {
 		return fmt.Errorf("nothing found although a reading frame of %d nucleotides exists", max)
 	}
-	if !validORF(got) {
+	if !validORF(fold(got)) {
 		return fmt.Errorf("returned %q is not an ATG-to-first-in-frame-stop reading frame", got)
 	}
 	if len(got) != max {
 		return fmt.Errorf("returned reading frame %q has %d nucleotides, a sequence contains one of %d", got, len(got), max)
 	}
-	in := false
+	// the residues are those of the original sequence: exactly on the forward strand; on the
+	// reverse strand the observed convention (case kept, DNA letters) or, counted, any other case / U
+	exactIn, foldFwd, foldRev := false, false, false
 	for _, s := range plain {
-		if strings.Contains(s, got) || c.Reverse && strings.Contains(revcomp(s), got) {
-			in = true
-		}
+		exactIn = exactIn || strings.Contains(s, got) || c.Reverse && strings.Contains(revcompKeepCase(s), got)
+		foldFwd = foldFwd || strings.Contains(fold(s), fold(got))
+		foldRev = foldRev || c.Reverse && strings.Contains(revcomp(fold(s)), fold(got))
 	}
-	if !in {
+	switch {
+	case exactIn:
+	case foldRev:
+		o.Ambiguous++
+	case foldFwd:
+		return fmt.Errorf("returned reading frame %q is in the input only up to case / U-T: not the original residues", got)
+	default:
 		return fmt.Errorf("returned reading frame %q occurs in no input sequence (strand allowed)", got)
 	}
 	ov := false
-	for _, s := range plain {
+	for _, s := range foldAll(plain) {
 		ov = ov || overlapping(s) || c.Reverse && overlapping(revcomp(s))
 	}
 	o.NonTrivial = ov
@@ -717,6 +819,7 @@ func judgeORF(c orfCase, got string, found bool, o *pbt.Outcome) error {
 
 func checkOrf(c orfCase) (o pbt.Outcome, err error) {
 	o.Class("bag=%v reverse=%v", c.Bag, c.Reverse)
+	o.Class("style=%s", c.Style)
 	if !c.Bag {
 		s := align.NewSequence(c.Seqs[0].Name, []uint8(c.Seqs[0].Seq), "")
 		st, en := s.LongestORF()
